@@ -704,6 +704,28 @@ func c07EqualShortcuts(p *load.Prog, r *oblig.Run) {
 			continue // answers false
 		}
 		n++
+		// the answer of a callee that is handed the two child lists and compares their lengths itself before it can
+		// answer true (DeepEqualNodes)
+		if c, isCall := v.(*ssa.Call); isCall {
+			if g := c.Call.StaticCallee(); g != nil && p.IsRepoFunc(g) && len(c.Call.Args) == 2 && len(g.Params) == 2 {
+				kidsOf := func(a ssa.Value) int {
+					nc, ok := a.(*ssa.Call)
+					if !ok || !nc.Call.IsInvoke() || nc.Call.Method.Name() != "Nodes" {
+						return -1
+					}
+					for k, prm := range fn.Params {
+						if nc.Call.Value == ssa.Value(prm) {
+							return k
+						}
+					}
+					return -1
+				}
+				a0, a1 := kidsOf(c.Call.Args[0]), kidsOf(c.Call.Args[1])
+				if a0 >= 0 && a1 >= 0 && a0 != a1 && lengthsComparedBeforeTrue(p, g) {
+					continue
+				}
+			}
+		}
 		compared := false
 		zero := map[int]bool{}
 		for i, b := range path[:len(path)-1] {
@@ -737,4 +759,60 @@ func c07EqualShortcuts(p *load.Prog, r *oblig.Run) {
 	default:
 		o.OK(fmt.Sprintf("%d path(s) that can answer true, each after the child counts were compared", n))
 	}
+}
+
+// lengthsComparedBeforeTrue: g(left, right []T) bool can only answer true on paths on which len(left) == len(right)
+// was established (or both found zero).
+func lengthsComparedBeforeTrue(p *load.Prog, g *ssa.Function) bool {
+	if len(g.Blocks) == 0 || len(g.Params) != 2 {
+		return false
+	}
+	side := func(v ssa.Value) int {
+		of, ok := lenArg(v)
+		if !ok {
+			return -1
+		}
+		for k, prm := range g.Params {
+			if of == ssa.Value(prm) {
+				return k
+			}
+		}
+		return -1
+	}
+	paths, capped := simplePaths(g.Blocks[0], map[*ssa.BasicBlock]bool{}, 5000)
+	if capped {
+		return false
+	}
+	n := 0
+	for _, path := range paths {
+		last := path[len(path)-1]
+		ret, ok := last.Instrs[len(last.Instrs)-1].(*ssa.Return)
+		if !ok || len(ret.Results) != 1 || !feasible(path) || !pathConstFeasible(path) {
+			continue
+		}
+		if val, known := evalBoolOnPath(ret.Results[0], path, len(path)-1); known && !val {
+			continue
+		}
+		n++
+		compared := false
+		for i, b := range path[:len(path)-1] {
+			iff, ok := b.Instrs[len(b.Instrs)-1].(*ssa.If)
+			if !ok {
+				continue
+			}
+			bo, ok := iff.Cond.(*ssa.BinOp)
+			if !ok || (bo.Op != token.EQL && bo.Op != token.NEQ) {
+				continue
+			}
+			eq := (bo.Op == token.EQL) == (path[i+1] == b.Succs[0])
+			a, c := side(bo.X), side(bo.Y)
+			if a >= 0 && c >= 0 && a != c && eq {
+				compared = true
+			}
+		}
+		if !compared {
+			return false
+		}
+	}
+	return n > 0
 }
